@@ -284,3 +284,49 @@ pub fn gen_parity_circuit(rng: &mut SplitMix64, allow_reset: bool, allow_peek: b
     ops.push(format!("measure {} {} Z", target, target));
     CircuitText { nq, nc, ops }
 }
+
+/// Feedback circuits of fragment F: conditional gates that read classical bits BEFORE the measurement that writes them in
+/// this run (as the correction step at the start of a repeated round does), then superposed / flipped qubits measured into
+/// exactly those bits, then possibly a second conditional gate and more measurements.  On a cleared register the early
+/// conditions read zeros.
+pub fn gen_feedback_circuit(rng: &mut SplitMix64, clifford: bool) -> CircuitText
+{
+    let nq = 2 + rng.below(3) as usize;
+    let nc = nq + rng.below(2) as usize;
+    let mut ops: Vec<String> = vec![];
+    let cond = |rng: &mut SplitMix64, ops: &mut Vec<String>| {
+        let k = 1 + rng.below(2.min(nc) as u64) as usize;
+        let mut cs: Vec<usize> = (0..nc).collect(); rng.shuffle(&mut cs); cs.truncate(k);
+        // mostly a target that a zero register does not spell
+        let target = if rng.below(4) == 0 { 0 } else { 1 + rng.below((1u64 << k) - 1) };
+        let q = rng.below(nq as u64) as usize;
+        let r = (q + 1 + rng.below(nq as u64 - 1) as usize) % nq;
+        match rng.below(if clifford { 4 } else { 6 })
+        {
+            0 | 1 => ops.push(format!("cond {} {} {} 1 {} X", k, join(&cs), target, q)),
+            2 => ops.push(format!("cond {} {} {} 1 {} H", k, join(&cs), target, q)),
+            3 => ops.push(format!("cond {} {} {} 2 {} {} CX", k, join(&cs), target, q, r)),
+            4 => ops.push(format!("cond {} {} {} 1 {} RY {}", k, join(&cs), target, q, fbits(1.0))),
+            _ => ops.push(format!("cond {} {} {} 2 {} {} CH", k, join(&cs), target, q, r)),
+        }
+    };
+    if !clifford { ops.push(format!("gate 1 {} T", rng.below(nq as u64))); }
+    for _ in 0..(1 + rng.below(2)) { cond(rng, &mut ops); }
+    for q in 0..nq { match rng.below(3) { 0 => ops.push(format!("gate 1 {} X", q)), 1 => ops.push(format!("gate 1 {} H", q)), _ => {} } }
+    if nq >= 2 && rng.below(2) == 0 { let q = rng.below(nq as u64) as usize; ops.push(format!("gate 2 {} {} CX", q, (q + 1) % nq)); }
+    let mut qs: Vec<usize> = (0..nq).collect();
+    rng.shuffle(&mut qs);
+    let mut cbits: Vec<usize> = (0..nc).collect();
+    rng.shuffle(&mut cbits);
+    for (i, &q) in qs.iter().enumerate()
+    {
+        ops.push(format!("measure {} {} Z", q, cbits[i]));
+        if rng.below(4) == 0 { cond(rng, &mut ops); }
+    }
+    if rng.below(2) == 0
+    {
+        cond(rng, &mut ops);
+        for &q in qs.iter() { if rng.below(2) == 0 { ops.push(format!("measure {} {} {}", q, rng.below(nc as u64), gen_basis(rng))); } }
+    }
+    CircuitText { nq, nc, ops }
+}
